@@ -26,7 +26,7 @@ Theorem C19_control_table :
    (forall nl, (nl <= 1)%Z -> dup_res p nl true = RNil) /\
    dup_listener_res p true true = RNil /\
    register_res p true TgtAddr = (RNil, Some true) /\
-   register_res p true TgtConn = (RNil, Some false) /\
+   register_res p true TgtConn = (RNil, Some true) /\
    stop_entry p = None) /\
   (validate PShutdown = RInShutdown /\
    (forall n, count_conns PShutdown n = RCount (-1)) /\
